@@ -183,3 +183,14 @@ Proof.
   - eapply okr_safe, insert_cr_ok; eauto.
   - rewrite (insert_cr_contract c v l); auto. exact I.
 Qed.
+
+(** * the insert(pos, n, x) capacity guard is exact: for every size_t value n it passes exactly when
+    size() + n <= capacity(), so the push_back loop behind it never runs into its own precondition
+    (a failing call is stopped before the vector is modified) *)
+Lemma insert_n_guard_exact c v n : cap_ok c -> inv c v -> 0 <= n < 2 ^ 64 ->
+  (wrapu 64 n <=? wrapu 64 (cap v - sz v)) = (sz v + n <=? Z.of_nat c).
+Proof.
+  intros Hc (Hl & Hs) Hn. assert (H64 := cap_ok_64 c Hc). unfold cap. rewrite Hl.
+  rewrite !wrapu64_small by lia.
+  destruct (Z.leb_spec n (Z.of_nat c - sz v)); destruct (Z.leb_spec (sz v + n) (Z.of_nat c)); auto; lia.
+Qed.
